@@ -75,6 +75,9 @@ class IndexReplacer(MultiFunction):
                 fi.append((j.count(), d))
 
         fi = unique_sorted_indices(sorted(fi))
+        if not fi:
+            # Every free index has been replaced by a fixed index
+            return Zero(shape=o.ufl_shape)
         free_indices, index_dimensions = zip(*fi)
 
         return Zero(
